@@ -748,8 +748,14 @@ def join(a, b, extra_candidates=()):
         n = norm_ineq(q)
         if n is not True and n is not False:
             cands.add(n)
-    for q in a.neqs & b.neqs:
-        r.neqs.add(q)
+    def _refutes(sys_, q):
+        # does sys_ exclude q == 0 (by one of its disequalities, or because q == 0 is infeasible there)
+        t = sys_.copy()
+        t.add_eq(q)
+        return t.bottom or not t.feasible()
+    for q in sorted(a.neqs | b.neqs, key=lambda x: x.key()):
+        if (q in a.neqs or _refutes(a, q)) and (q in b.neqs or _refutes(b, q)):
+            r.neqs.add(q)
     for q in a.cand | b.cand:
         cands.add(q)
     for q in sorted(cands, key=lambda x: x.key()):
@@ -768,7 +774,7 @@ def join(a, b, extra_candidates=()):
     return r
 
 
-def widen(old, new, thresholds=False):
+def _widen(old, new, thresholds=False):
     """old ∇ new with new ⊒ old expected: keep equalities in the hull, inequalities of old that new entails"""
     if old.bottom:
         return new.copy()
@@ -794,6 +800,14 @@ def widen(old, new, thresholds=False):
                     r.add_ge(n)
     return r
 
+
+
+def widen(old, new, thresholds=True):
+    r = _widen(old, new, thresholds=thresholds)
+    # disequalities both iterates agree on survive widening (they are only ever used to refute equalities)
+    for q in old.neqs & new.neqs:
+        r.neqs.add(q)
+    return r
 
 def leq(a, b):
     """a ⊑ b : every constraint of b is entailed by a"""
